@@ -173,6 +173,10 @@ def run(ctx):
             ctx.undecided("C20.R3", site, "accumulate/advance statements not found at loop top level")
             continue
         ctx.ob("C20.R3", site, "group is accumulated before the shift advances", idx_or < idx_inc, construct="or-before-inc")
+        caps = [x for x in ast.walk(lp) if isinstance(x, ast.Raise)] + [x for x in ast.walk(lp) if isinstance(x, ast.Assert)]
+        capped = [x for x in caps if True]
+        ctx.ob("C20.R3", site, "the decoder accepts an encoding of any length (Python integers are unbounded; the property ranges up to 2^128 = 19 bytes): no raise/assert on the number of groups read", not capped,
+               construct="dec-no-length-cap", node=capped[0] if capped else lp)
         if fn is dec_s:
             ctx.ob("C20.R3", site, "shift includes the last group when the loop exits (advance precedes break)",
                    idx_brk is not None and idx_inc < idx_brk, construct="inc-before-break")
